@@ -30,7 +30,8 @@ def gen(rnd, depth: int, exponent: bool = False):
         if q < 0.5:
             return ("var", rnd.choice(NAMES))
         if q < 0.8:
-            return ("int", rnd.choice([0, 1, 2, 3, 4, 7, 10, -1, -4]))
+            n = rnd.choice([0, 1, 2, 3, 4, 7, 10, -1, -4])
+            return ("int", n, "enum") if rnd.random() < 0.15 else ("int", n)
         return ("L", rnd.choice([0, 1, 2, 3, 5, -2]))
     if r < 0.8:
         op = rnd.choice(list(OPS))
@@ -53,6 +54,8 @@ def py_src(t) -> str:
     """Fully parenthesised Python source that builds the tree with the public classes."""
     k = t[0]
     if k == "int":
+        if len(t) > 2:
+            return f"_IE({t[1]})"                      # the same integer as a member of an enum.IntEnum
         return str(t[1]) if t[1] >= 0 else f"({t[1]})"
     if k == "L":
         return f"dltype.LiteralAxis({t[1]})"
@@ -137,6 +140,19 @@ def undefined_constant(t) -> bool:
 _EXPECTED = re.compile(r"expected=(-?\d+)")
 
 
+_ie = []
+
+
+def int_enum():
+    """An enum.IntEnum with one member per integer the generators use (users keep channel counts and the like in such enums)."""
+    if not _ie:
+        import enum
+
+        vals = [0, 1, 2, 3, 4, 5, 7, 10, 16, -1, -2, -4]
+        _ie.append(enum.IntEnum("_IE", {("N" if v < 0 else "P") + str(abs(v)): v for v in vals}))
+    return _ie[0]
+
+
 _prelude_done = []
 
 
@@ -176,7 +192,7 @@ def impl_sym(a: dict) -> dict:
 
     p = P()
     try:
-        obj = eval(a["src"], {"dltype": dltype})  # noqa: S307
+        obj = eval(a["src"], {"dltype": dltype, "_IE": int_enum()})  # noqa: S307
         shape = dltype.Shape[obj]
         text = str(shape)
     except BaseException as e:  # noqa: BLE001
@@ -225,7 +241,7 @@ def gen_axes(rnd):
         if q < 0.2:
             axes.append(("const", rnd.choice(["rgb", "k", "C_out"]), rnd.choice([0, 1, 3, 12])))
         elif q < 0.35:
-            axes.append(("expr", ("int", rnd.choice([0, 1, 2, 16]))))
+            axes.append(("expr", ("int", rnd.choice([0, 1, 2, 16]), "enum") if rnd.random() < 0.3 else ("int", rnd.choice([0, 1, 2, 16]))))
         else:
             t = gen(rnd, rnd.choice([0, 1, 2, 3]))
             axes.append(("expr", t))
@@ -268,7 +284,7 @@ def impl_shape(a: dict) -> dict:
 
     prelude()
     try:
-        shape = eval(a["src"], {"dltype": dltype})  # noqa: S307
+        shape = eval(a["src"], {"dltype": dltype, "_IE": int_enum()})  # noqa: S307
         text = str(shape)
     except BaseException as e:  # noqa: BLE001
         return {"v": "build", "exn": type(e).__name__}
